@@ -63,7 +63,7 @@ def digest(app):
     sc = app._bptk.get_scenario(SM[0], "base")
     return (d, dict(sc.constants), len(DESTROYED))
 
-import re, tempfile, shutil
+import os, sys, time, re, tempfile, shutil
 
 def make_bptk2():
     m = Model(starttime=1.0, stoptime=12.0, dt=1.0, name="m")
@@ -72,13 +72,20 @@ def make_bptk2():
     b = bptk()
     b.register_model(m)
     b.register_scenario_manager({"sm": {"model": m}})
-    b.register_scenarios(scenario_manager="sm", scenarios={"base": {"constants": {"c": 1.0}}, "alt": {"constants": {"c": 3.0, "g": 0.5}}})
+    # "plain" is registered WITHOUT constants / points (the default a user gets from register_model)
+    b.register_scenarios(scenario_manager="sm", scenarios={"base": {"constants": {"c": 1.0}}, "alt": {"constants": {"c": 3.0, "g": 0.5}}, "plain": {}})
     return b
 
 def norm(data, ids):
     s = data.decode() if isinstance(data, bytes) else str(data)
     for u in ids:
         s = s.replace(u, "ID")
+    # the order of the keys of a JSON object carries no meaning (the per-equation worker threads fill the frame in any order)
+    try:
+        if s.lstrip().startswith(("{", "[")):
+            return json.dumps(json.loads(s), sort_keys=True)
+    except ValueError:
+        pass
     return s
 
 def settings_of(v):
@@ -155,11 +162,49 @@ def execute(cfg, timeouts, schedule, only=None):
         if d:
             shutil.rmtree(d, ignore_errors=True)
 
+def isolated(fn, *args, **kw):
+    """run fn in a forked child and return its (pickled) result: process-wide state a run leaves behind (class
+    attributes, module globals) must not leak from the interleaved run into the solo runs it is compared with"""
+    import pickle, select, signal
+    r, w = os.pipe()
+    sys.stdout.flush()
+    pid = os.fork()
+    if pid == 0:
+        try:
+            os.close(r)
+            try:
+                res = ("ok", fn(*args, **kw))
+            except BaseException as e:
+                res = ("err", "%s: %s" % (type(e).__name__, e))
+            with os.fdopen(w, "wb") as f:
+                pickle.dump(res, f)
+        finally:
+            os._exit(0)
+    os.close(w)
+    data = b""
+    deadline = time.time() + 300
+    with os.fdopen(r, "rb") as f:
+        while True:
+            left = deadline - time.time()
+            if left <= 0 or not select.select([f], [], [], left)[0]:
+                os.kill(pid, signal.SIGKILL)
+                os.waitpid(pid, 0)
+                raise RuntimeError("isolated run did not finish in 300 s")
+            chunk = os.read(f.fileno(), 1 << 16)
+            if not chunk:
+                break
+            data += chunk
+    os.waitpid(pid, 0)
+    kind, val = pickle.loads(data)
+    if kind == "err":
+        raise RuntimeError(val)
+    return val
+
 def run(case):
     cfg, timeouts, schedule = case
-    joint = execute(cfg, timeouts, schedule)
+    joint = isolated(execute, cfg, timeouts, schedule)
     for i in range(len(timeouts)):
-        solo = execute(cfg, timeouts, schedule, only=i)[i]
+        solo = isolated(execute, cfg, timeouts, schedule, only=i)[i]
         if solo != joint[i]:
             for a, b in zip(joint[i], solo):
                 if a != b:
@@ -168,7 +213,7 @@ def run(case):
             return "instance %d: %d responses interleaved, %d alone" % (i, len(joint[i]), len(solo))
     return None
 
-case = ({'adapter': False, 'compress': False, 'batch': False}, [{'minutes': 5}, {'seconds': 2}, {'hours': 1}], [(2, ('begin', ('alt',), ('s', 'f', 'g'), ('alt', 'c', 11.0))), (0, ('begin', ('base',), ('s', 'f', 'g'), None)), (0, ('steps', 2, None)), (0, ('step', ('base', 'c', 5.0))), (0, ('results', False)), (0, ('steps', 2, ('base', 'c', 5.0))), (0, ('keep',)), (0, ('stream', None)), (2, ('steps', 1, None)), (2, ('step', ('base', 'g', 7.0))), (2, ('step', ('alt', 'c', 11.0))), (2, ('steps', 2, ('base', 'c', 0.25))), (2, ('step', ('base', 'c', 0.25))), (1, ('begin', ('base', 'alt'), ('s', 'f', 'g'), ('alt', 'g', 4.0))), (1, ('step', ('base', 'c', 0.25))), (1, ('step', ('base', 'c', 0.25))), (1, ('steps', 2, ('alt', 'g', 4.0))), (2, ('stream', ('base', 'g', 7.0))), (1, ('step', ('base', 'c', 5.0))), (1, ('step', ('base', 'c', 5.0))), (2, ('results', False)), (1, ('step', ('base', 'c', 0.25))), (1, ('results', False))])
+case = ({'adapter': False, 'compress': False, 'batch': False}, [{'minutes': 5}, {'minutes': 5}], [(1, ('begin', ('plain',), ('s', 'f', 'g'), None)), (0, ('begin', ('plain',), ('s', 'f', 'g'), ('plain', 'c', 9.0))), (1, ('step', None)), (0, ('step', None)), (1, ('step', None)), (0, ('step', None)), (1, ('step', None)), (0, ('step', None)), (1, ('results', False)), (0, ('results', False)), (1, ('end',)), (1, ('begin', ('plain',), ('s', 'f', 'g'), None)), (1, ('step', None)), (1, ('results', False))])
 bad = run(case)
 print("configuration:", case[0], "timeouts:", case[1])
 for p, s in enumerate(case[2]):
